@@ -390,13 +390,24 @@ fn chunk_check(ctx: &Ctx, c: &ChunkCase) -> PResult {
             return ctx.fail("codec/within-limit-rejected", format!("codec did not deliver a complete frame of size {} under max {}: {:?}", declared, max, r.map(|m| m.is_some())));
         }
     }
+    // and with nothing but the header in the buffer: an over-limit frame is refused on its header, the codec does not wait for
+    // (and buffer) the body
+    if over {
+        let mut codec = TcpCodec::new(o.clone());
+        let mut buf = BytesMut::from(&frame[..12.min(frame.len())]);
+        match codec.decode(&mut buf) {
+            Err(_) => {}
+            Ok(Some(_)) => return ctx.fail("codec/over-limit-accepted", format!("codec delivered a frame from the header of a frame of declared size {} under max {}", declared, max)),
+            Ok(None) => return ctx.fail("codec/waits-for-over-limit-body", format!("codec waits for the body of a frame whose header declares {} bytes under max_message_size {}", declared, max)),
+        }
+    }
     Ok(())
 }
 
 pub fn def() -> PropDef {
     PropDef {
         id: "C03",
-        rule: "a length probe (string, byte string, xml element, Option<Vec<i32>>, variant array and multi-dimension array of each of 16 element kinds, dimension list) with declared length in {limit-1, limit, limit+1, -2, -1, 0, i32::MAX, limit/2, limit+1000} placed bare / in a Variant / in DataValue(Variant) / in Variant(Variant) / as a field of a service structure / inside a request message, under a generated limit; chunks and frames with declared size around max_message_size read from a byte-counting reader; non-trivial = |length - limit| <= 1 at nesting level >= 1 (or chunk size within 1 of the limit); distinct = distinct (probe, container, limit, length)",
+        rule: "a length probe (string, byte string, xml element, Option<Vec<i32>>, variant array and multi-dimension array of each of 16 element kinds, dimension list) with declared length in {limit-1, limit, limit+1, -2, -1, 0, i32::MAX, limit/2, limit+1000} placed bare / in a Variant / in DataValue(Variant) / in Variant(Variant) / as a field of a service structure / inside a request message, under a generated limit; chunks and frames with declared size around max_message_size read from a byte-counting reader and given to the framing codec whole and as a bare header; non-trivial = |length - limit| <= 1 at nesting level >= 1 (or chunk size within 1 of the limit); distinct = distinct (probe, container, limit, length)",
         assumptions: &["only the probed limit is small; the other limits keep their defaults", "status codes are not compared (the property does not constrain them)"],
         abort_possible: false,
         parts: |tier| {
